@@ -14,7 +14,7 @@ TRUSTED = [
 def run(chk):
     chk.trusted_base = TRUSTED
     chk.rule = ("op cells: the non-symmetric face integrals of all cells: every non-negligible face (i, j, s) must have a partner (j, i, -s) with the same area and shifted centroid; "
-                "op tess: every unshifted interior face stored once and listed by both cells, periodic faces in reciprocal pairs with opposite normals; non-trivial = cell pair sharing a non-negligible face")
+                "op tess (full and masked builds, vs the exact cells): every non-negligible exact face between two constructed cells is stored exactly once when unshifted (and listed by both cells) and from both sides when shifted, periodic faces in reciprocal pairs with opposite normals; non-trivial = cell pair sharing a non-negligible face")
     chk.lean(['MVoro.Props.C03', 'MVoro.Proofs.TessBook', 'MVoro.Proofs.VorSet'], [], [])
     got = run_cells_op(chk, op='cells')
     if got is None:
@@ -120,6 +120,28 @@ def run(chk):
                     sl = conn[cells[c].off:cells[c].off + cells[c].cnt]
                     if sl.count(k) != 1:
                         chk.violation('impl-vs-oracle', 'face %d between %d and %d is listed %d times by cell %d %s' % (k, a, b, sl.count(k), c, where), rp, key='listed')
+        # every non-negligible exact face between two constructed cells must be there: exactly once when unshifted
+        # (stored by one side, listed by both), from both sides when shifted
+        mm = parse_model(model.get(r.id)) if model.get(r.id) else None
+        if mm is not None and not tol.ill:
+            for e in mm['cells']:
+                if e.failed != 'ok':
+                    continue
+                for mf in e.faces:
+                    if mf.right is None or not mf.valid or not area_gt(mf.area2, tol.area * 100):
+                        continue
+                    if not (mf.right < inp.n and mask[mf.right] and mask[e.idx]):
+                        continue
+                    if mf.shift is None:
+                        key = (min(e.idx, mf.right), max(e.idx, mf.right))
+                        if len(seen.get(key, [])) != 1:
+                            chk.violation('impl-vs-model', 'the face between the constructed cells %d and %d (exact area %.6g) is stored %d times %s'
+                                          % (key[0], key[1], float(mf.area2) ** 0.5, len(seen.get(key, [])), where), rp, key='once')
+                    else:
+                        if not per.get((e.idx, mf.right, mf.shift)):
+                            chk.violation('impl-vs-model', 'the periodic face %d -> %d shift %s (exact area %.6g) is not stored from the side of cell %d %s'
+                                          % (e.idx, mf.right, mf.shift, float(mf.area2) ** 0.5, e.idx, where), rp, key='periodic-pair')
+                    chk.nontriv((r.id, 'stored', e.idx, mf.right, mf.shift))
         if not tol.ill:
             for (i, j, s), fs in per.items():
                 if not (mask[i] and mask[j]):
